@@ -29,6 +29,11 @@ pub enum CacheState {
     FreshGarbage,
     StaleGarbage,
     StaleEmpty,
+    /// A valid document cut after this permille of its length, written 2 h ago
+    /// (what a torn write by something other than rink would leave).
+    StaleTruncated(u32, u32),
+    /// A valid document with one bit flipped at this permille of its length.
+    StaleBitflip(u32, u32),
 }
 
 #[derive(Serialize, Deserialize, Clone, Debug, PartialEq)]
@@ -137,7 +142,11 @@ fn body_bytes(id: u32, size_class: u32) -> Vec<u8> {
 fn body_ids(sc: &Scenario) -> Vec<u32> {
     let mut ids = Vec::new();
     match &sc.initial {
-        CacheState::Fresh(v) | CacheState::Stale(v) | CacheState::Future(v) => ids.push(*v),
+        CacheState::Fresh(v)
+        | CacheState::Stale(v)
+        | CacheState::Future(v)
+        | CacheState::StaleTruncated(v, _)
+        | CacheState::StaleBitflip(v, _) => ids.push(*v),
         _ => {}
     }
     for r in &sc.runs {
@@ -221,6 +230,17 @@ fn initial_disk(sc: &Scenario) -> Disk {
         CacheState::FreshGarbage => d.put(&p, GARBAGE, T0_NS - 60_000_000_000),
         CacheState::StaleGarbage => d.put(&p, GARBAGE, T0_NS - 2 * hour),
         CacheState::StaleEmpty => d.put(&p, b"", T0_NS - 2 * hour),
+        CacheState::StaleTruncated(v, pm) => {
+            let doc = document(*v, sc.doc_size);
+            let n = (doc.len() as u64 * (*pm as u64).min(999) / 1000) as usize;
+            d.put(&p, &doc[..n.max(1)], T0_NS - 2 * hour)
+        }
+        CacheState::StaleBitflip(v, pm) => {
+            let mut doc = document(*v, sc.doc_size);
+            let i = ((doc.len() as u64 * (*pm as u64).min(999) / 1000) as usize).min(doc.len() - 1);
+            doc[i] ^= 0x10;
+            d.put(&p, &doc, T0_NS - 2 * hour)
+        }
     }
     d
 }
@@ -789,7 +809,9 @@ impl Harness for C20 {
 
     fn generate(&self, rng: &mut Rng, _tier: Tier, _index: u64) -> Scenario {
         let v0 = rng.below(8) as u32;
-        let initial = match rng.below(9) {
+        let initial = match rng.below(11) {
+            9 => CacheState::StaleTruncated(v0, 1 + rng.below(998) as u32),
+            10 => CacheState::StaleBitflip(v0, rng.below(999) as u32),
             0 | 1 => CacheState::Absent,
             2 => CacheState::Fresh(v0),
             3 | 4 => CacheState::Stale(v0),
@@ -1183,7 +1205,7 @@ impl Harness for C20 {
     fn rule(&self) -> String {
         "One evaluation = one seeded history of 1..5 process runs (start-up via load_live_currency, full load(), or --fetch-currency) \
          of the real cli/src/config.rs over one persistent simulated file system, from a seeded prior cache state \
-         {absent, fresh, stale, mtime in the future, unreadable fresh/stale, empty}, with per-run server behaviour \
+         {absent, fresh, stale, mtime in the future, unreadable fresh/stale, empty, truncated, one bit flipped}, with per-run server behaviour \
          {200 complete with/without Content-Length, 200 complete but not currency data, 200 cut after k bytes (close or reset), stall mid-body, 3xx/4xx/5xx with error page, \
          non-200 with a real document, stall, refused, DNS failure}, seeded chunking, file-system faults (EACCES/ENOSPC/EROFS/EIO/EXDEV/EINTR/EDQUOT/EMFILE/short write \
          at a chosen call), clock jumps between runs, and - for 3 of 4 histories - a crash sweep: the history is re-executed once for \
